@@ -103,6 +103,12 @@ func nilOrigins(p *Prog, v ssa.Value, nilFields map[string]bool) []Origin {
 			if f, _, ok := loadedField(o.Val); ok && nilFields[f] {
 				out = append(out, o)
 			}
+		case "param":
+			// a parameter is as nil-capable as the code believes it to be: its own function compares it with nil, or a
+			// call site in the module passes something nil-capable (entry points receive what gRPC passes: assumed non-nil)
+			if prm, ok := o.Val.(*ssa.Parameter); ok && nilCapableParam(p, prm, nilFields, map[*ssa.Parameter]bool{}) {
+				out = append(out, o)
+			}
 		case "next":
 			// range value of a map/slice of pointers: as nil-capable as what is stored there — handled by the element lemma
 			out = append(out, o)
@@ -111,6 +117,77 @@ func nilOrigins(p *Prog, v ssa.Value, nilFields map[string]bool) []Origin {
 		}
 	}
 	return out
+}
+
+// nilCapableParam: see nilOrigins.
+func nilCapableParam(p *Prog, prm *ssa.Parameter, nilFields map[string]bool, seen map[*ssa.Parameter]bool) bool {
+	if seen[prm] || !isPointerLike(prm.Type()) {
+		return false
+	}
+	seen[prm] = true
+	fn := prm.Parent()
+	tested := false
+	eachInstr(fn, func(in ssa.Instruction) {
+		bo, ok := in.(*ssa.BinOp)
+		if !ok || (bo.Op != token.EQL && bo.Op != token.NEQ) {
+			return
+		}
+		if (stripConv(bo.X) == ssa.Value(prm) && isNilConst(bo.Y)) || (stripConv(bo.Y) == ssa.Value(prm) && isNilConst(bo.X)) {
+			tested = true
+		}
+	})
+	if tested {
+		return true
+	}
+	idx := -1
+	for i, q := range fn.Params {
+		if q == prm {
+			idx = i
+		}
+	}
+	if idx < 0 {
+		return false
+	}
+	capable := false
+	for _, g := range p.Funcs {
+		eachInstr(g, func(in ssa.Instruction) {
+			cc := callCommon(in)
+			if cc == nil || capable {
+				return
+			}
+			for _, callee := range p.calleesOf(cc) {
+				if callee != fn {
+					continue
+				}
+				ai := idx
+				if cc.IsInvoke() {
+					ai = idx - 1 // the receiver is not among the arguments of an interface call
+				}
+				if ai < 0 || ai >= len(cc.Args) {
+					continue
+				}
+				for _, ao := range origins(cc.Args[ai]) {
+					switch ao.Kind {
+					case "param":
+						if q, ok := ao.Val.(*ssa.Parameter); ok && nilCapableParam(p, q, nilFields, seen) {
+							capable = true
+						}
+					case "const":
+						if isNilConst(ao.Val) {
+							capable = true
+						}
+					case "zero":
+						capable = true
+					case "fieldload":
+						if f, _, ok := loadedField(ao.Val); ok && nilFields[f] {
+							capable = true
+						}
+					}
+				}
+			}
+		})
+	}
+	return capable
 }
 
 func isPointerLike(t types.Type) bool {
